@@ -40,8 +40,8 @@ def _attribute_name_for_errors(attr):
 # Attribute type checkers
 def _is_constant_boolean(attr, module_source_file):
     """Checks if the given attr is a constant boolean."""
-    if not attr.value.has_field("expression") or not (
-        attr.value.expression.type.boolean.has_field("value")
+    if not (
+        ir_data_utils.reader(attr).value.expression.type.boolean.has_field("value")
     ):
         return [
             [
